@@ -166,7 +166,7 @@ class Check:
             print(f"  selector: {sel}")
             print(f"  detail: {json.dumps(r.get('replay'), default=str)[:600]}")
         for r in inconclusive:
-            print(f"INCONCLUSIVE property={self.pid} {r['config']} {r['name']} ({r['status']}, {r['seconds']:.1f}s)")
+            print(f"INCONCLUSIVE property={self.pid} {r['config']} {r['name']} ({r['status']}, {r['seconds']:.1f}s) {r.get('detail', '')[:300]}")
         for e in harness_errors:
             print(f"HARNESS-ERROR property={self.pid} {e}", file=sys.stderr)
 
